@@ -149,9 +149,7 @@ def shallowSlot (p : Val × FieldD) : Val :=
 
 theorem shallowCopy_msg (S : Schema) (c : Nat) (sl : List Val) (ow : Bool) (unk : Bytes) (cur : List (Option Nat)) :
     shallowCopy S (.msg c sl ow unk cur)
-      = .msg c ((sl.zip (fieldsOf S c)).map shallowSlot) ow unk
-          (initCur (fieldsOf S c) ((sl.zip (fieldsOf S c)).map shallowSlot) 0
-            (List.replicate (groupsOf S c) Option.none)) := rfl
+      = .msg c ((sl.zip (fieldsOf S c)).map shallowSlot) ow unk cur := rfl
 
 theorem shallowSlots_id (S : Schema) : ∀ (fs : List FieldD) (vs : List Val), SlotsOk S fs vs →
     (vs.zip fs).map shallowSlot = vs
@@ -174,8 +172,7 @@ theorem shallowCopy_id (S : Schema) (m : Val) (h : MsgOk S m) : shallowCopy S m 
   | mk c d sl ow unk cur hd h1 h2 h3 h4 h5 h6 h7 hsl hunk =>
     have hfs : fieldsOf S c = d.fields := by simp [fieldsOf, hd]
     have hgs : groupsOf S c = d.nGroups := by simp [groupsOf, hd]
-    rw [shallowCopy_msg, hfs, hgs, shallowSlots_id S d.fields sl hsl,
-      initCur_eq_cur d.fields d.nGroups sl cur h2 h3 h4 h5 h6 h7]
+    rw [shallowCopy_msg, hfs, shallowSlots_id S d.fields sl hsl]
 
 /-! ### deep copy -/
 
@@ -189,7 +186,7 @@ theorem deepCopy_id (S : Schema) : ∀ (m : Val), MsgOk S m → deepCopy S m = m
       have hgs : groupsOf S c = d.nGroups := by simp [groupsOf, hd]
       rw [deepCopy]
       simp only [hfs, hgs]
-      rw [deepCopySlots_id S d.fields sl hsl, initCur_eq_cur d.fields d.nGroups sl cur h2 h3 h4 h5 h6 h7]
+      rw [deepCopySlots_id S d.fields sl hsl]
   | .ph, h | .none, h | .int _, h | .bool _, h | .f32 _, h | .f64 _, h | .str _, h | .byt _, h
   | .ts _, h | .dur _, h | .list _, h | .dict _ _, h => by cases h
 
